@@ -236,7 +236,7 @@ func checkC19(c *mc.Ctx) {
 		}
 		c19Parsers(c, st, refPk)
 	}
-	c.Ev.Require("mixed-skip-vector", "structured-predicate", "parser-observer", "parser-replacer")
+	c.Ev.Require("mixed-skip-vector", "structured-predicate", "parser-observer", "parser-replacer", "parser-replacer-returns-nothing")
 }
 
 // c19Parsers checks the PacketsParser contract on one stream.
@@ -268,8 +268,10 @@ func c19Parsers(c *mc.Ctx, st *Stream, refPk []*ref.Pkt) {
 		}
 	}
 	errParser := errors.New("verif: parser failure")
-	// mode: -2 observer (skip=false), -1 replacer (skip=true), k>=0 failing at call k
-	for mode := -2; mode < nUnits; mode++ {
+	// mode: -2 observer (skip=false), -1 replacer (skip=true, one data per unit), k>=0 failing at call k;
+	// -3 replacer returning nil, -4 replacer returning an empty slice, -5 replacer returning two data,
+	// -(6+k) replacer returning nothing for unit k and one data for every other unit
+	for mode := -6 - (nUnits - 1); mode < nUnits; mode++ {
 		groups := map[uint16][][]int{}
 		var returned []string
 		calls := 0
@@ -306,7 +308,16 @@ func c19Parsers(c *mc.Ctx, st *Stream, refPk []*ref.Pkt) {
 			}
 			groups[pid] = append(groups[pid], idx)
 			switch {
-			case mode == -1:
+			case mode == -3 || mode == -6-call:
+				return nil, true, nil
+			case mode == -4:
+				return []*astits.DemuxerData{}, true, nil
+			case mode == -5:
+				d1 := &astits.DemuxerData{PID: pid, PES: &astits.PESData{Data: []byte{byte(call), 1}}}
+				d2 := &astits.DemuxerData{PID: pid, PES: &astits.PESData{Data: []byte{byte(call), 2}}}
+				returned = append(returned, mc.Canon(d1), mc.Canon(d2))
+				return []*astits.DemuxerData{d1, d2}, true, nil
+			case mode == -1 || mode <= -6:
 				d := &astits.DemuxerData{PID: pid, PES: &astits.PESData{Data: []byte{byte(call)}}}
 				returned = append(returned, mc.Canon(d))
 				return []*astits.DemuxerData{d}, true, nil
@@ -358,8 +369,11 @@ func c19Parsers(c *mc.Ctx, st *Stream, refPk []*ref.Pkt) {
 			if len(o.Errs) > 0 || !equalStrs(got, plain) {
 				rep("parser-skip-false-changes-output", fmt.Sprintf("%d data with an observing parser, %d without", len(got), len(plain)))
 			}
-		case mode == -1:
+		case mode == -1 || mode <= -3:
 			c.Ev.Class("parser-replacer", 1)
+			if mode <= -3 && mode != -5 {
+				c.Ev.Class("parser-replacer-returns-nothing", 1)
+			}
 			if len(o.Errs) > 0 || !equalStrs(got, returned) {
 				rep("parser-skip-true-not-substituted", fmt.Sprintf("%d data delivered, the parser returned %d", len(got), len(returned)))
 			}
@@ -378,11 +392,35 @@ func c19Parsers(c *mc.Ctx, st *Stream, refPk []*ref.Pkt) {
 		}
 		c.Ev.Distinct(fmt.Sprintf("%s|parser|%d", st.Name, mode))
 	}
-	c.Ev.AddScenario(mc.Scenario{Name: "parsers:" + st.Name, SpaceSize: int64(nUnits + 2), Executed: int64(nUnits + 2), Exhaustive: true, Bound: "observer, replacer, failing at unit k for every k"})
+	c.Ev.AddScenario(mc.Scenario{Name: "parsers:" + st.Name, SpaceSize: int64(2*nUnits + 5), Executed: int64(2*nUnits + 5), Exhaustive: true, Bound: "observer; replacer returning one, two, nil or an empty slice of data for every unit; replacer returning nothing for unit k only, for every k; failing at unit k for every k"})
 }
 
 // ---------------------------------------------------------------------------------------
 // C20 Rewind
+
+// MultiSectionStream: units that deliver several data at once (a PAT in 4 sections inside one
+// packet, an SDT+SDT+SDT unit over two packets, a PMT in 2 sections), so that a Rewind can fall
+// between two data of the same unit.
+func MultiSectionStream(seed int64) *Stream {
+	ccs := []uint8{3, 7, 11, 14}
+	var patSecs [][]byte
+	for i := 0; i < 4; i++ {
+		patSecs = append(patSecs, SecPAT(modelPAT(uint16(1+i), uint16(0x1001+i)), ref.SecHdr{CNI: true, SN: uint8(i), LSN: 3}))
+	}
+	pmt := modelPMT(1, 0x100, 1)
+	var sdtSecs [][]byte
+	for i := 0; i < 3; i++ {
+		sdtSecs = append(sdtSecs, SecSDT(modelSDT(2+i), ref.SecHdr{CNI: true, SN: uint8(i), LSN: 2}))
+	}
+	lists := [][]*ref.Pkt{
+		Packetize(PSIUnit(0, 0, patSecs, nil), nil, &ccs[0], true),
+		Packetize(PSIUnit(0x1001, 0, [][]byte{SecPMT(pmt, ref.SecHdr{CNI: true, SN: 0, LSN: 1}), SecPMT(modelPMT(1, 0x100, 2), ref.SecHdr{CNI: true, SN: 1, LSN: 1})}, nil), nil, &ccs[1], true),
+		Packetize(PSIUnit(0x11, 0, sdtSecs, nil), nil, &ccs[2], true),
+		append(Packetize(PESUnit(0x100, 0xe0, pesPayload(31, 200, seed), 1, false), nil, &ccs[3], false), Packetize(PESUnit(0x100, 0xe0, pesPayload(32, 20, seed), 2, false), nil, &ccs[3], false)...),
+	}
+	st := BuildStream("multi-section-units", lists, roundRobin(lists), nil)
+	return st
+}
 
 func checkC20(c *mc.Ctx) {
 	c.Ev.Level = "model_checking"
@@ -393,7 +431,7 @@ func checkC20(c *mc.Ctx) {
 		depth = 8
 	}
 	streams := c19Streams(c.Seed)
-	streams = append(streams, &Stream{Name: "big-payloads", Bytes: BigPayloadStream(c.Seed)})
+	streams = append(streams, &Stream{Name: "big-payloads", Bytes: BigPayloadStream(c.Seed)}, MultiSectionStream(c.Seed))
 	for _, st := range streams {
 		for _, auto := range []bool{false, true} {
 			mk := func() *astits.Demuxer {
